@@ -30,3 +30,10 @@ claim("C03", "bit-provenance abstract interpretation of LEB128 readers and write
       "consume exactly that many bytes and produce the DEX-specified bit layout truncated to 32 bits with the right extension. The writers are interpreted on a "
       "symbolic 32-bit value (magnitude classes by exact refinement) and their abstract output is run through the abstract reader: identity on every bit, flags correct.",
       "Trusted: agstatic bit domain and interpreter; cm.packer['B'] is an unsigned byte; stream.read(1) yields the next byte (EOF makes unpack raise).")
+
+claim("C04", "abstract interpretation of EncodedValue.__init__ per header byte (bit provenance) + binding and printing provenance",
+      "For every (value_type, value_arg) header the constructor is interpreted over symbolic bytes: integers must be the little-endian value of exactly value_arg+1 bytes "
+      "with the DEX-specified sign/zero extension, references must resolve the zero-extended index through the right ClassManager accessor, nested values parse from the same stream. "
+      "set_static_fields must bind value i to field i, and the conversion DvClass.get_source applies before printing is interpreted on the reader's abstract value.",
+      "Trusted: agstatic bit domain; DEX encoded_value table in the rule (from the public format document). FLOAT/DOUBLE/METHOD_TYPE/METHOD_HANDLE not decided. "
+      "29 listed known findings (no sign extension) stay reported as KNOWN-FINDING.")
